@@ -61,7 +61,7 @@ func (f *fn) bufferBytes() Val {
 			s = fmt.Sprintf("(%s ++ buf)", f.win.name)
 		}
 	}
-	return Val{S: s, K: KBytes, N: -1, Epoch: f.epoch}
+	return Val{S: s, K: KBytes, N: -1, Epoch: f.epoch, View: &view{lo: "0"}}
 }
 
 func (f *fn) call(c *ast.CallExpr) Val {
@@ -91,6 +91,9 @@ func (f *fn) call(c *ast.CallExpr) Val {
 			}
 			f.fail(c, "builtin %s in an expression", id.Name)
 		}
+	}
+	if v, ok := f.blockSizeCall(c); ok {
+		return v
 	}
 	callee := f.calleeOf(c)
 	if callee == nil {
